@@ -305,6 +305,8 @@ def byte_strings(thorough):
         yield bytes(t)
     yield bytes(range(256))
     yield b'\x00' * 1000
+    for n in (3072, 4096, 4097, 8193, 65537):
+        yield bytes((i * 11 + n) % 256 for i in range(n))
 
 
 def _work(chunk):
